@@ -393,7 +393,7 @@ func (c *ClientConn) SendUpstreamMetadata(ctx context.Context, msg *message.Upst
 	if err != nil {
 		return nil, err
 	}
-	return res.(*message.UpstreamMetadataAck), nil
+	return replyAs[*message.UpstreamMetadataAck](res)
 }
 
 func (c *ClientConn) sendPing() (*message.Pong, error) {
@@ -405,7 +405,7 @@ func (c *ClientConn) sendPing() (*message.Pong, error) {
 	if err != nil {
 		return nil, err
 	}
-	return resp.(*message.Pong), nil
+	return replyAs[*message.Pong](resp)
 }
 
 // SubscribeUpstreamChunkAckは、UpstreamChunkAckを待ち受けます。
@@ -452,7 +452,10 @@ func (c *ClientConn) SendUpstreamOpenRequest(ctx context.Context, req *message.U
 		return nil, err
 	}
 
-	res := resp.(*message.UpstreamOpenResponse)
+	res, err := replyAs[*message.UpstreamOpenResponse](resp)
+	if err != nil {
+		return nil, err
+	}
 	c.openUpstream(ctx, req.QoS, res.AssignedStreamID, res.AssignedStreamIDAlias)
 
 	return res, nil
@@ -468,7 +471,10 @@ func (c *ClientConn) SendUpstreamResumeRequest(ctx context.Context, req *message
 		return nil, err
 	}
 
-	res := resp.(*message.UpstreamResumeResponse)
+	res, err := replyAs[*message.UpstreamResumeResponse](resp)
+	if err != nil {
+		return nil, err
+	}
 
 	c.openUpstream(ctx, qoS, req.StreamID, res.AssignedStreamIDAlias)
 
@@ -491,7 +497,11 @@ func (c *ClientConn) SendUpstreamChunk(ctx context.Context, req *message.Upstrea
 // SendUpstreamCloseRequestは、UpstreamCloseRequestを送信します。
 func (c *ClientConn) SendUpstreamCloseRequest(ctx context.Context, req *message.UpstreamCloseRequest) (*message.UpstreamCloseResponse, error) {
 	req.RequestID = message.RequestID(c.idGenerator.Next())
-	resp, err := c.sendRequest(ctx, req)
+	reply, err := c.sendRequest(ctx, req)
+	if err != nil {
+		return nil, err
+	}
+	resp, err := replyAs[*message.UpstreamCloseResponse](reply)
 	if err != nil {
 		return nil, err
 	}
@@ -499,7 +509,7 @@ func (c *ClientConn) SendUpstreamCloseRequest(ctx context.Context, req *message.
 	defer c.upstreams.mu.Unlock()
 	alias, ok := c.upstreams.aliases[req.StreamID]
 	if !ok {
-		return resp.(*message.UpstreamCloseResponse), nil
+		return resp, nil
 	}
 
 	delete(c.upstreams.aliases, req.StreamID)
@@ -512,7 +522,7 @@ func (c *ClientConn) SendUpstreamCloseRequest(ctx context.Context, req *message.
 		delete(c.upstreams.messageWriters, alias)
 	}
 
-	return resp.(*message.UpstreamCloseResponse), nil
+	return resp, nil
 }
 
 // SubscribeDownstreamChunkは、指定したストリームIDエイリアス、QoSのDownstreamChunkを待ち受けます。
@@ -595,7 +605,10 @@ func (c *ClientConn) SendDownstreamResumeRequest(ctx context.Context, req *messa
 	if err != nil {
 		return nil, err
 	}
-	resp := res.(*message.DownstreamResumeResponse)
+	resp, err := replyAs[*message.DownstreamResumeResponse](res)
+	if err != nil {
+		return nil, err
+	}
 
 	c.downstreams.mu.Lock()
 	defer c.downstreams.mu.Unlock()
@@ -611,7 +624,10 @@ func (c *ClientConn) SendDownstreamOpenRequest(ctx context.Context, req *message
 	if err != nil {
 		return nil, err
 	}
-	resp := res.(*message.DownstreamOpenResponse)
+	resp, err := replyAs[*message.DownstreamOpenResponse](res)
+	if err != nil {
+		return nil, err
+	}
 
 	c.downstreams.mu.Lock()
 	defer c.downstreams.mu.Unlock()
@@ -623,7 +639,11 @@ func (c *ClientConn) SendDownstreamOpenRequest(ctx context.Context, req *message
 // SendDownstreamCloseRequestは、DownstreamCloseRequestを送信します。
 func (c *ClientConn) SendDownstreamCloseRequest(ctx context.Context, req *message.DownstreamCloseRequest) (*message.DownstreamCloseResponse, error) {
 	req.RequestID = message.RequestID(c.idGenerator.Next())
-	resp, err := c.sendRequest(ctx, req)
+	reply, err := c.sendRequest(ctx, req)
+	if err != nil {
+		return nil, err
+	}
+	resp, err := replyAs[*message.DownstreamCloseResponse](reply)
 	if err != nil {
 		return nil, err
 	}
@@ -632,7 +652,7 @@ func (c *ClientConn) SendDownstreamCloseRequest(ctx context.Context, req *messag
 
 	alias, ok := c.downstreams.aliases[req.StreamID]
 	if !ok {
-		return resp.(*message.DownstreamCloseResponse), nil
+		return resp, nil
 	}
 	delete(c.downstreams.aliases, req.StreamID)
 
@@ -652,7 +672,7 @@ func (c *ClientConn) SendDownstreamCloseRequest(ctx context.Context, req *messag
 		delete(c.downstreams.metadata, alias)
 	}
 
-	return resp.(*message.DownstreamCloseResponse), nil
+	return resp, nil
 }
 
 // SendDownstreamDataPointsAckは、DownstreamMetadataAckを送信します。
@@ -698,6 +718,16 @@ func (c *ClientConn) ReceiveDownstreamCall(ctx context.Context) (*message.Downst
 		}
 		return msg, nil
 	}
+}
+
+// replyAs converts the reply to the expected type; a reply of another type (a peer protocol error) is reported as an error.
+func replyAs[T message.Request](resp message.Request) (T, error) {
+	res, ok := resp.(T)
+	if !ok {
+		var zero T
+		return zero, errors.Errorf("unexpected reply %T for request id %d: %w", resp, resp.GetRequestID(), errors.ErrMalformedMessage)
+	}
+	return res, nil
 }
 
 func (c *ClientConn) sendRequest(ctx context.Context, req message.Request) (message.Request, error) {
